@@ -596,7 +596,7 @@ def main(argv):
         for r in ex.map(run_task, tasks, chunksize=1):
             merge(st, r)
     # auxiliary passes (sanitizers, big-endian interpreter, nightly-only API): property specific
-    if hasattr(prop, 'extra_passes'):
+    if hasattr(prop, 'extra_passes') and os.environ.get('VERIF_AUX', '1') != '0':   # VERIF_AUX=0: debugging aid, skips the sanitizer / interpreter passes
         try:
             extra_cov = prop.extra_passes(sys.modules[__name__], tier, seed, st, a.jobs) or {}
         except BuildError as e:
